@@ -1,5 +1,6 @@
 //! Harness library for the versatiles-rs property checks (see /verif/DESIGN.md).
 pub mod engine;
 pub mod util;
+pub mod model;
 
 pub use engine::{guard, Check, Fail, Obs, Tier};
